@@ -60,14 +60,23 @@ func Case(ntKey string, classes ...string) {
 	}
 }
 
-func Class(c string)            { R.mu.Lock(); R.Classes[c]++; R.mu.Unlock() }
-func Count(c string, n int64)   { R.mu.Lock(); R.Counters[c] += n; R.mu.Unlock() }
-func Exclude(finding string)    { R.mu.Lock(); R.Excluded[finding]++; R.mu.Unlock() }
-func SetRule(s string)          { R.mu.Lock(); R.Rule = s; R.mu.Unlock() }
-func Assume(s string)           { R.mu.Lock(); R.Assume = append(R.Assume, s); R.mu.Unlock() }
-func Exhaustive(space string)   { R.mu.Lock(); R.Exhaustive[space] = true; R.mu.Unlock() }
-func Note(k, v string)          { R.mu.Lock(); R.Notes[k] = v; R.mu.Unlock() }
-func NonTrivialOnly(key string) { R.mu.Lock(); h := sha256.Sum256([]byte(key)); R.NonTrivial[hex.EncodeToString(h[:8])] = true; R.mu.Unlock() }
+// Evals adds n executed sub-cases (e.g. adversarial candidates checked inside one generated case) to
+// the evaluation count, so that evaluations >= distinct non-trivial keys recorded with NonTrivialOnly.
+func Evals(n int64) { R.mu.Lock(); R.Evals += n; R.mu.Unlock() }
+
+func Class(c string)          { R.mu.Lock(); R.Classes[c]++; R.mu.Unlock() }
+func Count(c string, n int64) { R.mu.Lock(); R.Counters[c] += n; R.mu.Unlock() }
+func Exclude(finding string)  { R.mu.Lock(); R.Excluded[finding]++; R.mu.Unlock() }
+func SetRule(s string)        { R.mu.Lock(); R.Rule = s; R.mu.Unlock() }
+func Assume(s string)         { R.mu.Lock(); R.Assume = append(R.Assume, s); R.mu.Unlock() }
+func Exhaustive(space string) { R.mu.Lock(); R.Exhaustive[space] = true; R.mu.Unlock() }
+func Note(k, v string)        { R.mu.Lock(); R.Notes[k] = v; R.mu.Unlock() }
+func NonTrivialOnly(key string) {
+	R.mu.Lock()
+	h := sha256.Sum256([]byte(key))
+	R.NonTrivial[hex.EncodeToString(h[:8])] = true
+	R.mu.Unlock()
+}
 
 // Sample keeps a few of the cases verbatim (first ones plus a deterministic thinning).
 func Sample(v interface{}) {
